@@ -180,8 +180,11 @@ impl ShortFileName {
     /// Get the LFN checksum for this short filename
     pub fn csum(&self) -> u8 {
         let mut result = 0u8;
-        for b in self.contents.iter() {
-            result = result.rotate_right(1).wrapping_add(*b);
+        for (i, b) in self.contents.iter().enumerate() {
+            // The checksum covers the name as stored on disk, where a
+            // leading 0xE5 is replaced with 0x05.
+            let b = if i == 0 && *b == 0xE5 { 0x05 } else { *b };
+            result = result.rotate_right(1).wrapping_add(b);
         }
         result
     }
